@@ -16,7 +16,9 @@
 (*  Dev_Revived               restart() after shutdown() returned starts a new generation                  *)
 (*  Dev_ResponderLeak         the responder created after a stop request passed is never shut down        *)
 (*  Dev_NoHook                a restart accepted during the wind-down skips restart_hook                   *)
-(*  Dev_InterruptedStartup    a signal during start-up ends run() with KeyboardInterrupt, nothing cleaned  *)
+(*  Dev_InterruptedStartup    a signal during start-up ends run() with KeyboardInterrupt (or with the      *)
+(*                            RuntimeError / AttributeError of shutdown() called by the handler), nothing  *)
+(*                            is cleaned up                                                                 *)
 EXTENDS ServerRunObs, Json, IOUtils, TLCExt
 
 Traces == JsonDeserialize(IOEnv.TRACE_FILE)
@@ -36,7 +38,9 @@ Dev_ShutdownLost(s, e) == {Dev(s, "Dev_ShutdownLost")}
 Dev_RestartLost(s, e) == {Dev(s, "Dev_RestartLost")}
 Dev_RequestRaises(s, e) ==
   {Dev(n, "Dev_RequestRaises_" \o e.exc) : n \in H_req_e(s, [e EXCEPT !.exc = ""])}
-Dev_Revived(s, e) == {Dev([NewGen(s, e.g) EXCEPT !.shutDone = FALSE, !.shutAny = FALSE], "Dev_Revived")}
+Dev_Revived(s, e) ==
+  IF e.ev = "hook" THEN {Dev([s EXCEPT !.ph = "hooked", !.hooks = 1], "Dev_Revived")}
+  ELSE {Dev([NewGen(s, e.g) EXCEPT !.shutDone = FALSE, !.shutAny = FALSE], "Dev_Revived")}
 Dev_ResponderLeak(s, e) ==
   IF e.ev = "boot" THEN {Dev([NewGen(s, e.g) EXCEPT !.oldDisc = @ \cup {s.gen}], "Dev_ResponderLeak")}
   ELSE {Dev(s, "Dev_ResponderLeak")}
@@ -53,12 +57,15 @@ DevFor(s, e, why) ==
     [] why = "S2.shutdown requested but run() did not return" -> Dev_ShutdownLost(s, e)
     [] why = "R2.accepted restart request never led to a new generation" -> Dev_RestartLost(s, e)
     [] why = "E1.request raises" -> Dev_RequestRaises(s, e)
-    [] why = "S1.generation after shutdown() returned" -> Dev_Revived(s, e)
+    [] why = "S1.generation after shutdown() returned" /\ (s.gen = 0 \/ s.ph = "hooked") /\ s.disc # "open"
+         -> Dev_Revived(s, e)
+    [] why = "S1.hook after shutdown() returned" -> Dev_Revived(s, e)
     [] why = "G5.responder of the previous generation still open" -> Dev_ResponderLeak(s, e)
     [] why = "S2.discovery responder left after the end" -> Dev_ResponderLeak(s, e)
     [] why = "G5.boot before the previous generation is down" /\ s.ph = "stopped" /\ AllMods(s, "down")
               /\ s.hooks = 0 /\ RestartWanted(s) -> Dev_NoHook(s, e)
-    [] why = "exc.run() raises" /\ e.exc = "KeyboardInterrupt" /\ (\E x \in s.reqGen : x[1] = "sig")
+    [] why = "exc.run() raises" /\ e.exc \in {"KeyboardInterrupt", "RuntimeError", "AttributeError"}
+              /\ (\E x \in s.reqGen : x[1] = "sig")
               -> Dev_InterruptedStartup(s, e)
     [] OTHER -> {Fail(s, why)}
 
